@@ -538,7 +538,11 @@ def rule_model_rendering(prog, rep):
         except AnalysisError:
             pqr_lines = [ln for ln, _ in model]
         # 1. the route --apbs-input takes, for output names with the usual suffix, another suffix, two dots, and none
-        sizes = _sizing(prog, pqr_lines)
+        try:
+            sizes = _sizing(prog, pqr_lines)
+        except Flow as fl:
+            r.bad(f"{label}|sizing", f"sizing the {label} model stops with {fl.value}", "pdb2pqr/psize.py (Psize.parse_lines, Psize.set_all)")
+            continue
         failed = False
         if label.startswith("single atom"):
             for method in ("mg-auto", "mg-para"):
